@@ -419,6 +419,41 @@ theorem rne_le_of_le_rep (p : Nat) (hp : 1 ≤ p) (emin : Int) {f q : ℚ} (hf :
   have := rne_mono p hp emin h
   rwa [rne_eq_self_of_rep p emin hf] at this
 
+/-! ### rounding error -/
+
+theorem roundHalfEven_err (s : ℚ) : |(roundHalfEven s : ℚ) - s| ≤ 1 / 2 := by
+  have h1 : (s.floor : ℚ) ≤ s := Rat.floor_le s
+  have h2 : s < (s.floor : ℚ) + 1 := by
+    have : s.floor < s.floor + 1 := by omega
+    have := Rat.floor_lt_iff.mp this
+    push_cast at this; exact this
+  rw [abs_le]
+  unfold roundHalfEven
+  simp only []
+  split
+  · rename_i h; constructor <;> linarith
+  · split
+    · rename_i h; push_cast; constructor <;> linarith
+    · rename_i h3 h4
+      have : s - (s.floor : ℚ) = 1 / 2 := le_antisymm (not_lt.mp h4) (not_lt.mp h3)
+      split
+      · constructor <;> linarith
+      · push_cast; constructor <;> linarith
+
+/-- the rounding error is at most half a unit in the last place -/
+theorem rne_err_pos (p : Nat) (emin : Int) {q : ℚ} (hq : 0 < q) :
+    |rne p emin q - q| ≤ pow2 (expo p emin q) / 2 := by
+  rw [rne_pos_eq p emin hq]
+  set e := expo p emin q
+  have he := pow2_pos e
+  have h := roundHalfEven_err (q / pow2 e)
+  have : (roundHalfEven (q / pow2 e) : ℚ) * pow2 e - q = ((roundHalfEven (q / pow2 e) : ℚ) - q / pow2 e) * pow2 e := by
+    field_simp
+  rw [this, abs_mul, abs_of_pos he]
+  calc |(roundHalfEven (q / pow2 e) : ℚ) - q / pow2 e| * pow2 e ≤ 1 / 2 * pow2 e :=
+        mul_le_mul_of_nonneg_right h he.le
+    _ = pow2 e / 2 := by ring
+
 /-! ### `Fmt.round` -/
 
 theorem Fmt.round_cases (f : Fmt) (q : ℚ) :
